@@ -20,7 +20,9 @@ PROPS = {
         rule="typed, terminating, validator-accepted programs (nested blocks/loops/ifs, br/br_if/br_table to every enclosing non-loop label, return, unreachable, a mutable global, locals, results, i32.load / i32.store on eight word cells of memory 0, calls of the imported $log and of a local helper function that accumulates into the global) "
              "with 1-6 neutral probes over before/after/block-entry/block-exit/semantic-after, neutral alternates on non-control instructions (probe + the replaced instruction re-emitted; given meaning on the specification side by desugaring: nop + alternate code after the before-probes) and function entry/exit, 4 argument vectors each; non-trivial = every case (plan never empty)",
         level_text="Partial proof: simulation theorem (all bodies, plans, configurations, fuel) that the plain interpreter on the lowered tree reproduces the specification interpreter, for before/after/"
-                   "block-entry/block-exit/semantic-after-on-constructs; semantic-after on branches and function entry/exit are outside the theorem and covered by in-Coq differential execution of the original "
+                   "block-entry/block-exit/semantic-after-on-constructs, and end to end (C16_emitted_code_simulates_the_probe_semantics) that the code the flat mirror of resolve_special_instrumentation + emission produces - function "
+                   "entry / exit probes with the real placement included - is the flattening of a tree on which the plain interpreter reproduces results, globals, traps and event trace of the probe-semantics interpreter; "
+                   "semantic-after on branches (known classes D16-D18) and plain alternates are outside the theorem and covered by in-Coq differential execution of the original "
                    "vs. the really emitted body; validity of the output by the real validator per sample.",
         level_note=SIM_NOTE, technique="Coq simulation proof + in-Coq differential execution against the real encoder output", design_ref="5/C16"),
     "C17": dict(COMMON,
